@@ -251,12 +251,12 @@ PROPS = {
 
 PROPS["C04"] = dict(
     gen=True,
-    modules=["HT.Props.C04", "HT.Props.C04Http", "HT.Props.C04Redis", "HT.Props.C04HttpOnce", "HT.Props.C04Ldap", "HT.Props.GenC04"],
+    modules=["HT.Props.C04", "HT.Props.C04Http", "HT.Props.C04Redis", "HT.Props.C04HttpOnce", "HT.Props.C04Ldap", "HT.Props.C04Chunked", "HT.Props.GenC04"],
     streams=["c04seg"],
     rule="services configured on a real Honeytrap (real Run(): construction, port table, bus, filter -> capture channel), "
          "connections handed to the real handle() (findService, timeout wrapper, recover) over a scripted connection whose "
          "Read returns exactly one client segment: per service (ftp, telnet, memcached, redis, smtp incl. DATA and BDAT, http "
-         "with content-length bodies; chunked http bodies oracle only) grammar-generated dialogues delivered in one piece, one write per command "
+         "with content-length bodies and, as segc cases against the chunked-body machine, chunked bodies) grammar-generated dialogues delivered in one piece, one write per command "
          "(pipelined and lock-step), at every single cut point (all for short streams, a stride for long ones), sampled "
          "multi-cut, one byte per read, and cut short; mutated/raw streams; datagrams to dns, tftp, snmp, counterstrike, echo "
          "and memcached-udp from distinct sources through the dispatcher; each through the Lean framing machine / datagram "
